@@ -7,7 +7,7 @@ Driver for C13: one op per modelled function.  Strings in, JSON (compact) or an 
   substance {"s": str}           -> JSON [latex_name, unicode_name, html_name] | exception name
   species  {"s": str, "phases": [str] | [[str, int]], "default": int | null}
                                  -> JSON [latex_name, unicode_name, html_name, phase_idx] | exception name
-  reaction {"printer": "str"|"latex"|"unicode"|"html", "eq": bool, "substances": [str], "reac": [[key, n]], "prod": [[key, n]]}
+  reaction {"printer": "str"|"latex"|"unicode"|"html", "eq": bool, "substances": [str], "reac": [[key, n | [num, den]]], "prod": [...]}
                                  -> JSON string
 -/
 import ChemModel.Basic.Proto
@@ -35,12 +35,10 @@ def unOf (un : Str → Str) (r : Except FErr Str) : Json :=
   | .ok s => jstr (un s)
   | .error e => Json.str e.pyName
 
-def getPairs (j : Json) (k : String) : Except String (List (Str × Nat)) := do
+def getPairs (j : Json) (k : String) : Except String (List (Str × Rat)) := do
   (← getArr j k).mapM fun v =>
     match v with
-    | .arr #[.str key, n] => do
-      let i ← asInt n
-      if i < 0 then .error s!"!bad-arg:{k}" else pure (key.toList, i.toNat)
+    | .arr #[.str key, n] => do pure (key.toList, ← asRat n)
     | _ => .error s!"!bad-arg:{k}"
 
 def getPhases (j : Json) : Except String Phases := do
